@@ -4,9 +4,11 @@ package dastard
 // PUB/SUB pair; the field bytes are computed independently here (encoding/binary, math.Float32bits).
 
 import (
+	"bytes"
 	"encoding/binary"
 	"math"
 	"math/rand"
+	"sync"
 	"testing"
 	"time"
 
@@ -115,6 +117,66 @@ func TestVerifWire(t *testing.T) {
 		for _, h := range hs {
 			id++
 			wiEmit(id, h.kind, "held", h.r, h.parts)
+		}
+	}
+	// the two publishers are two goroutines that encode the same batch at the same time (startSocket runs one goroutine
+	// per PUB socket): both builders run concurrently here, many rounds, every message is logged afterwards
+	{
+		type built struct {
+			r     *DataRecord
+			parts [][]byte
+		}
+		rounds := 400
+		sub := recs
+		if len(sub) > 24 {
+			sub = sub[:24]
+		}
+		outR := make([][]built, rounds)
+		outS := make([][]built, rounds)
+		var wg sync.WaitGroup
+		wg.Add(2)
+		go func() {
+			defer wg.Done()
+			for k := 0; k < rounds; k++ {
+				for _, r := range sub {
+					outR[k] = append(outR[k], built{r, messageRecords(r)})
+				}
+			}
+		}()
+		go func() {
+			defer wg.Done()
+			for k := 0; k < rounds; k++ {
+				for _, r := range sub {
+					outS[k] = append(outS[k], built{r, messageSummaries(r)})
+				}
+			}
+		}()
+		wg.Wait()
+		// log every message of a few rounds, and of the others only those that differ from the sequentially built one
+		same := func(a, b [][]byte) bool {
+			if len(a) != len(b) {
+				return false
+			}
+			for i := range a {
+				if !bytes.Equal(a[i], b[i]) {
+					return false
+				}
+			}
+			return true
+		}
+		for k := 0; k < rounds; k++ {
+			for _, x := range outR[k] {
+				if k < 2 || !same(x.parts, messageRecords(x.r)) {
+					id++
+					wiEmit(id, "record", "concurrent", x.r, x.parts)
+				}
+			}
+			for _, x := range outS[k] {
+				if k < 2 || !same(x.parts, messageSummaries(x.r)) {
+					id++
+					wiEmit(id, "summary", "concurrent", x.r, x.parts)
+				}
+			}
 		}
 	}
 	// the same builders behind a real PUB socket, received on a SUB socket
